@@ -152,21 +152,23 @@ func (e *executor) Prepare(workflow *Workflow, workflowContext map[string][]byte
 	}
 
 	// Stage 6: Output data model.
+	// The workflow belongs to the caller, who may prepare it again, so the outputs are not written back to it.
+	outputs := workflow.Outputs
 	//goland:noinspection GoDeprecation
 	if workflow.Output != nil {
-		if len(workflow.Outputs) > 0 {
+		if len(outputs) > 0 {
 			return nil, fmt.Errorf("both 'output' and 'outputs' is provided, please provide one")
 		}
 		//goland:noinspection GoDeprecation
-		workflow.Outputs = map[string]any{
+		outputs = map[string]any{
 			"success": workflow.Output,
 		}
 	}
-	if len(workflow.Outputs) == 0 {
+	if len(outputs) == 0 {
 		return nil, fmt.Errorf("no output provided for workflow")
 	}
 	outputsSchema := map[string]*schema.StepOutputSchema{}
-	for outputID, outputData := range workflow.Outputs {
+	for outputID, outputData := range outputs {
 		var outputSchema *schema.StepOutputSchema
 		if workflow.OutputSchema != nil {
 			outputSchemaData, ok := workflow.OutputSchema[outputID]
